@@ -28,8 +28,9 @@ ASSUMPTIONS = [
     'analytic mechanistic model is harness code; reference integrator for PKPD models']
 REQUIRED = ['kind:em', 'kind:pop', 'kind:ll', 'kind:hier', 'kind:fpost', 'kind:pred', 'kind:ctrl', 'kind:mech',
             'reconfigured', 'exhaustive', 'op:set_n_ids', 'op:fix', 'op:set_dim_names', 'op:set_parameter_names',
-            'op:set_population_parameters']
-POP_OPS = ['set_n_ids', 'set_dim_names', 'set_parameter_names', 'fix', 'release', 'set_population_parameters']
+            'op:set_population_parameters', 'op:rejected_selection', 'rejected_selection:cov']
+POP_OPS = ['set_n_ids', 'set_dim_names', 'set_parameter_names', 'fix', 'release', 'set_population_parameters',
+           'rejected_selection']
 
 
 # ---- exhaustive enumeration ------------------------------------------------------------------
@@ -112,6 +113,8 @@ def _spec(draw):
         for _ in range(draw(st.integers(0, 5))):
             op = POP_OPS[draw(st.integers(0, len(POP_OPS) - 1))]
             prog.append([op, draw(st.integers(0, 10 ** 6))])
+        if popgen.has(pop, 'cov') and gen.chance(draw, 0.5):
+            prog.insert(draw(st.integers(0, len(prog))), ['rejected_selection', draw(st.integers(0, 10 ** 6))])
         return dict(kind='pop', pop=pop, n_ids=n_ids, prog=prog)
     if kind == 'll':
         ll = llbuild.draw_ll(draw)
@@ -352,6 +355,27 @@ def check(case):
                     if isinstance(target, chi.CovariatePopulationModel) and not isinstance(m, chi.ReducedPopulationModel):
                         base_n = target._population_model.n_parameters() // target.n_dim()
                         target.set_population_parameters([[arg % base_n, (arg // 7) % target.n_dim()]])
+                elif op == 'rejected_selection':
+                    # a configuration call that is rejected changes nothing (the invariants below run on the model
+                    # that saw it)
+                    target = m.get_population_model() if isinstance(m, chi.ReducedPopulationModel) else m
+                    if isinstance(target, chi.ComposedPopulationModel):
+                        # (a rejected call on a part changes nothing either)
+                        covs = [q for q in target.get_population_models() if isinstance(q, chi.CovariatePopulationModel)]
+                        target = covs[arg % len(covs)] if covs else target
+                    if isinstance(target, chi.CovariatePopulationModel):
+                        base_n = target._population_model.n_parameters() // target.n_dim()
+                        bad = [[0, 0], [[base_n, 0], [0, target.n_dim()], [-1, 0]][arg % 3]]
+                        case.labels.append('rejected_selection:cov')
+                        before = (list(m.get_parameter_names()), m.n_parameters())
+                        try:
+                            target.set_population_parameters(bad)
+                        except IndexError:
+                            pass
+                        else:
+                            case.fail('accepted', 'out-of-range selection %r was accepted' % (bad,))
+                        case.equal((list(m.get_parameter_names()), m.n_parameters()), before,
+                                   'names and count after a rejected set_population_parameters call')
                 if op in ('set_parameter_names', 'set_dim_names', 'set_population_parameters'):
                     fixed_names = None          # names changed: the by-name bookkeeping below no longer applies
                 if fixed_names and isinstance(m, chi.ReducedPopulationModel):
